@@ -1,5 +1,6 @@
 import Nsq.Proofs.ToFileDisc
 import Nsq.Model.ToFile
+import Nsq.Model.ToFileMain
 /-!
 C19, topic discovery of nsq_to_file (`TopicDiscoverer`): for every pattern, every answer of the
 regexp library, every outcome of `NewFileLogger`, every sequence of lookupd polls (lists or errors),
@@ -73,7 +74,60 @@ theorem terminated_router_ends (c : Nsq.Model.ToFile.Cfg) (io : Nat → Nsq.Mode
     · assumption
     · simp
 
+/-- **what a started nsq_to_file can rely on** (`main()`'s start-up checks, translated from the source): a non-empty
+channel, positive HTTP timeouts, exactly one of nsqd / lookupd addresses, a gzip level in 1..9, and either
+explicit topics or — discovery mode — a pattern *and* a lookupd to poll -/
+theorem started_iff (o : Nsq.Model.ToFileMain.MainOpts) :
+    Nsq.Model.ToFileMain.refuses o = false ↔
+      (o.channel ≠ [] ∧ 0 < o.connectTimeout ∧ 0 < o.requestTimeout ∧ (o.nNsqd = 0 ↔ o.nLookupd ≠ 0)
+       ∧ 1 ≤ o.gzipLevel ∧ o.gzipLevel ≤ 9 ∧ (o.nTopics = 0 → o.pattern ≠ [] ∧ o.nLookupd ≠ 0)) := by
+  unfold Nsq.Model.ToFileMain.refuses
+  simp only [Bool.or_eq_false_iff, Bool.and_eq_false_iff, decide_eq_false_iff_not, decide_eq_true_eq]
+  constructor
+  · rintro ⟨⟨⟨⟨⟨⟨⟨h1, h2⟩, h3⟩, h4⟩, h5⟩, h6, h7⟩, h8⟩, h9⟩
+    refine ⟨h1, by omega, by omega, ?_, by omega, by omega, ?_⟩
+    · constructor
+      · intro hn; cases h4 with
+        | inl h => exact absurd hn h
+        | inr h => exact h
+      · intro hl; cases h5 with
+        | inl h => exact Decidable.not_not.mp h
+        | inr h => exact absurd hl h
+    · intro ht
+      refine ⟨?_, ?_⟩
+      · cases h8 with
+        | inl h => exact absurd ht h
+        | inr h => exact h
+      · cases h9 with
+        | inl h => exact absurd ht h
+        | inr h => exact h
+  · rintro ⟨h1, h2, h3, h4, h5, h6, h7⟩
+    refine ⟨⟨⟨⟨⟨⟨⟨h1, by omega⟩, by omega⟩, ?_⟩, ?_⟩, by omega, by omega⟩, ?_⟩, ?_⟩
+    · by_cases hn : o.nNsqd = 0
+      · exact Or.inr (h4.mp hn)
+      · exact Or.inl hn
+    · by_cases hn : o.nNsqd = 0
+      · exact Or.inl (by simpa using hn)
+      · exact Or.inr (fun hl => hn (h4.mpr hl))
+    · by_cases ht : o.nTopics = 0
+      · exact Or.inr (h7 ht).1
+      · exact Or.inl ht
+    · by_cases ht : o.nTopics = 0
+      · exact Or.inr (h7 ht).2
+      · exact Or.inl ht
+
+/-- discovery mode (no `--topic`) always has something to poll: the ticker of `run()` is never pointed at an
+empty lookupd list, and the pattern is never empty -/
+theorem discovery_mode_has_lookupd (o : Nsq.Model.ToFileMain.MainOpts)
+    (h : Nsq.Model.ToFileMain.refuses o = false) (ht : o.nTopics = 0) :
+    o.nLookupd ≠ 0 ∧ o.nNsqd = 0 ∧ o.pattern ≠ [] := by
+  have := (started_iff o).mp h
+  exact ⟨(this.2.2.2.2.2.2 ht).2, this.2.2.2.1.mpr (this.2.2.2.2.2.2 ht).2, (this.2.2.2.2.2.2 ht).1⟩
+
 /-! ### non-vacuity -/
+
+example : Nsq.Model.ToFileMain.refuses ⟨[99], 1, 1, 0, 1, 0, [94], 6⟩ = false := by decide
+example : Nsq.Model.ToFileMain.refuses ⟨[99], 1, 1, 1, 0, 0, [94], 6⟩ = true := by decide
 
 private def eAll : Env := { pattern := [], matched := fun _ => .ok false, create := fun t => t ≠ [120] }
 private def ePat : Env := { pattern := [94, 97], matched := fun t => .ok (t.head? == some 97), create := fun _ => true }
